@@ -755,10 +755,14 @@ func (ex *Exec) sprintfSymbolic(st *State, format string, va SliceVal) (StrVal, 
 
 func (ex *Exec) fireOldestTimer(st *State) bool {
 	for i, t := range st.timers() {
-		if t.active {
-			ex.fireTimer(st, i)
-			return true
+		if !t.active {
+			continue
 		}
+		if t.fn == nil && len(ex.chanObj(st, t.ch).Buf) >= 1 {
+			continue // already delivered and not consumed: firing again changes nothing
+		}
+		ex.fireTimer(st, i)
+		return true
 	}
 	return false
 }
